@@ -31,6 +31,15 @@ extern MPT_STRUCT(config_item) *mpt_config_item_reserve(_MPT_UARRAY_TYPE(MPT_STR
 	size_t item_count = 0;
 	int len;
 	
+	/* refuse before anything is reserved: every element must fit an identifier */
+	{
+		MPT_STRUCT(path) tmp = *path;
+		while ((len = mpt_path_next(&tmp)) >= 0) {
+			if (len >= UINT16_MAX) {
+				return 0;
+			}
+		}
+	}
 	name = path->base + path->off;
 	if ((len = mpt_path_next(path)) < 0) {
 		return 0;
